@@ -41,9 +41,11 @@ def run(ck, F):
         outs = S.run(f['id'])
     except Unsupported as e:
         raise AnalysisBroken(f'{GQ}: {e}')
-    empty = [(st, k, v) for st, k, v in outs
-             if any(c in (('op', '==', ('param', 0), ('k', 0, 'zero')), ('op', '==', ('param', 0), ('k', 0, 'int'))) and val
-                    for c, val in st.conds)]
+    # the request with the empty set itself (a constant first argument decides every test on it)
+    try:
+        empty = S.run(f['id'], args=[('k', 0, 'zero'), ('param', 1)])
+    except Unsupported as e:
+        raise AnalysisBroken(f'{GQ} (empty set): {e}')
     ok = bool(empty) and all(k == 'throw' and v in LOGIC_DERIVED and not any(e[0] == 'tree_insert' for e in st.effects)
                              for st, k, v in empty)
     ck.check(R1, 'get_qualified(empty set)', ok,
@@ -70,7 +72,8 @@ def run(ck, F):
     if not any((ISA, True) in st.conds for st, v in rets_all):
         ck.fail(R2, 'operand that is Qualified/path0', 'get_qualified never examines whether its operand is itself Qualified',
                 loc=f['loc'], fn=f['id'])
-    rets = [(st, v) for st, v in rets_all if (ISA, False) in st.conds]
+    examined = any(c == ISA for st, v in rets_all for c, _val in st.conds)
+    rets = [(st, v) for st, v in rets_all if (ISA, False) in st.conds or not examined]
     if len(rets) != 1:
         raise AnalysisBroken(f'{GQ}: {len(rets)} returning paths for an operand that is not Qualified')
     st1, v1 = rets[0]
